@@ -510,7 +510,12 @@ func (c *fctx) typeSwitch() *S {
 	}
 	for i := 0; i <= n; i++ {
 		if i == def {
-			s.Cases = append(s.Cases, &Case{Default: true, Body: d.caseBody()})
+			e := d.sub()
+			e.sws++
+			if bind {
+				e.sc.declare(s.Name, vAny)
+			}
+			s.Cases = append(s.Cases, &Case{Default: true, Body: e.stmts(1 + r.Intn(3))})
 			continue
 		}
 		if i == n && def != n {
@@ -523,6 +528,8 @@ func (c *fctx) typeSwitch() *S {
 		if bind && len(ts) == 1 && ts[0] == "int" {
 			// the binding is an int in this clause: make it readable
 			e.sc.declare(s.Name, vRO)
+		} else if bind {
+			e.sc.declare(s.Name, vAny) // shadows an outer int binding of the same name
 		}
 		cs.Body = e.stmts(1 + r.Intn(2))
 		s.Cases = append(s.Cases, cs)
